@@ -296,6 +296,7 @@ func runC08(run *Run, replay string) {
 	}
 	ctx := context.Background()
 	matchWalkCases(run, rand.New(rand.NewSource(subSeed(run.Res.Seed, 515151))), n*6)
+	crossFileFocusCases(run)
 	operandSymmetryOracle(run, rand.New(rand.NewSource(subSeed(run.Res.Seed, 616161))), n*2)
 	funcCandidateCases(run, rand.New(rand.NewSource(subSeed(run.Res.Seed, 717171))), 1+n/12)
 	for i := 0; i < n; i++ {
@@ -341,6 +342,12 @@ func runC08(run *Run, replay string) {
 				}
 				// the buffer as it is while the reference is being typed: text after the cursor removed
 				typed := string(sc.Src[s:cut])
+				// inside the brackets of an index the text being typed is either the whole traversal so far or - where
+				// the parser sees the key as an expression of its own - what follows the bracket
+				typedKey := typed
+				if i := strings.LastIndex(typed, "["); i >= 0 && !strings.Contains(typed[i:], "]") {
+					typedKey = typed[i+1:]
+				}
 				nsrc := string(sc.Src[:cut]) + string(sc.Src[e:])
 				w2 := newWorld()
 				files2 := map[string]string{"main.tf": nsrc}
@@ -379,7 +386,7 @@ func runC08(run *Run, replay string) {
 					m["typed"] = typed
 					m["candidate"] = c.Label
 					m["buffer"] = nsrc
-					if !strings.HasPrefix(c.Label, typed) {
+					if !strings.HasPrefix(c.Label, typed) && !strings.HasPrefix(c.Label, typedKey) {
 						key := "C08/reference-candidate-ignores-typed-text"
 						if (c.Label == "self" || strings.HasPrefix(c.Label, "self.")) && crossFileSelfAt(pd2, "main.tf", pos) {
 							// Target.Address labels a declaration of another file self.* when its byte range contains the cursor
